@@ -175,6 +175,9 @@ func customDoc(r *rand.Rand) *etree.Document {
 	root := d.CreateElement("samlp:AuthnRequest")
 	root.CreateAttr("xmlns:samlp", "urn:oasis:names:tc:SAML:2.0:protocol")
 	root.CreateAttr("ID", "_custom")
+	if r.IntN(2) == 0 {
+		root.CreateAttr("Destination", "https://elsewhere.example.test/not-the-configured-endpoint")
+	}
 	root.CreateComment(" caller-made ")
 	v, _ := RandValue(r)
 	root.CreateElement("Extra").SetText(v)
